@@ -62,7 +62,7 @@ theorem step_send_some {s s' : St} {c id seq : Nat} {salt : Int} (h : step s (.s
 theorem step_ack_some {s s' : St} {id seq : Nat} {ids : List Nat} (h : step s (.ack id seq ids) = some s') :
     id % 4 = 0 ∧ s.lastId < id ∧ seq % 2 = 0 ∧ s.lastSeq ≤ seq ∧ ids ≠ [] ∧
     (ids.all fun i => s.owedAck.contains i) = true ∧
-    s' = { s with lastId := id, lastSeq := seq, owedAck := s.owedAck.filter (fun i => !ids.contains i),
+    s' = { s with lastId := id, lastSeq := seq, owedAck := strike s.owedAck ids,
                   acked := ids ++ s.acked, wire := (id, seq) :: s.wire } := by
   simp only [Mtv.Client.step] at h
   split at h
@@ -217,6 +217,17 @@ theorem sentOk_reachable : ∀ s, Reachable s → SentOk s := by
   · intro s h; exact h
   · intro s mid seq h; unfold oweAck; split <;> exact h
 
+theorem mem_strike_of_not_mem {x : Nat} : ∀ (ids owed : List Nat), x ∉ ids → x ∈ owed → x ∈ strike owed ids := by
+  intro ids
+  induction ids with
+  | nil => intro owed _ h; exact h
+  | cons i ids ih =>
+    intro owed hx h
+    simp only [List.mem_cons, not_or] at hx
+    unfold strike
+    simp only [List.foldl_cons]
+    exact ih (owed.erase i) hx.2 ((List.mem_erase_of_ne hx.1).mpr h)
+
 /-- every content-related message received is acknowledged, or its acknowledgement is owed -/
 def AcksOk (s : St) : Prop := ∀ mid ∈ s.gotOdd, mid ∈ s.owedAck ∨ mid ∈ s.acked
 
@@ -232,7 +243,7 @@ theorem acksOk_reachable : ∀ s, Reachable s → AcksOk s := by
     rcases h mid hm with ho | ha
     · by_cases hin : mid ∈ ids
       · exact Or.inr (by simp [hin])
-      · exact Or.inl (by simp [List.mem_filter, ho, hin])
+      · exact Or.inl (mem_strike_of_not_mem ids s.owedAck hin ho)
     · exact Or.inr (by simp [ha])
   · intro s c v s' h hst
     obtain ⟨rid, _, rfl⟩ := step_deliver_some hst
